@@ -22,6 +22,11 @@ def run(chk):
     r = tv("Trace_Text", "Trace_Text.cfg", t, shards=12, tag="C17")
     chk.add_tv("text", r)
     report_rejects(chk, r, sig, lambda ev, d: "text handling differs from the Text specification: %s" % json.dumps({k: v for k, v in ev.items() if k != "frame"})[:300])
+    t2 = record("text", chk.path("text-relchk.ndjson"), profile="relchk", seed=chk.seed + 5, n=300 if q else 6000, timeout=3000)
+    r2 = tv("Trace_Text", "Trace_Text.cfg", t2, shards=12, tag="C17-relchk")
+    chk.add_tv("text[relchk]", r2)
+    report_rejects(chk, r2, lambda ev, d: "[overflow-checks] " + sig(ev, d),
+                   lambda ev, d: "[overflow-checks] text handling differs from the Text specification: %s" % json.dumps({k: v for k, v in ev.items() if k != "frame"})[:300])
     refused = sum(1 for ln, o in r["lines"] if o["ev"] == "TextRt" and str(o.get("out", "")).startswith("err"))
     corrupt = sum(1 for ln, o in r["lines"] if o["ev"] == "Utf8Frame" and o["dec"] == "Corrupt")
     if refused < 3 or corrupt < 20:
